@@ -110,6 +110,39 @@ def replace_guard(chk: Check, eng: Engine, rule: str, need: set[str]) -> None:
         chk.bad(rule, eng.relfile(rm), g.line, rm.fq, "substitution guard is a disjunction", "any single condition suffices to substitute", keyparts="guard-or")
 
 
+def position_bookkeeping_rule(chk: Check, eng: Engine, rule: str) -> None:
+    """A node that takes the place of another one in replace_multiple inherits what belongs to the *position*, not to the subtree: the parent
+    link and the repetition tags (`origin_repetitions`: which round of which repetition of the parent's rule this child is).  The copy of the
+    replacement carries the tags of the place it was taken from; without the hand-over a swapped element drops out of the count of its
+    repetition (computed bounds are then "repaired" by inserting elements, and the over-long tree scores 1.0).  On every path from the copy to
+    the return of the new node both fields are assigned from the replaced node."""
+    T = eng.cls(TREE, "DerivationTree")
+    rm = eng.method(T, "replace_multiple", inherited=False)
+    cfg = eng.cfg(rm)
+    copies = [n for n in cfg.nodes if n.kind == "stmt" and isinstance(n.ast, ast.Assign) and len(n.ast.targets) == 1 and isinstance(n.ast.targets[0], ast.Name)
+              and isinstance(n.ast.value, ast.Call) and isinstance(n.ast.value.func, ast.Attribute) and n.ast.value.func.attr in ("deepcopy", "__deepcopy__")
+              and ("path_to_replacement" in norm(n.ast.value.func.value) or "replacement" in norm(n.ast.value.func.value))]
+    if len(copies) != 1:
+        raise AnalysisError(f"replace_multiple: the copy of the replacement subtree was not recognised ({len(copies)} candidates)")
+    cp = copies[0]
+    var = cp.ast.targets[0].id  # type: ignore[union-attr]
+    rets = [n.id for n in cfg.nodes if n.kind == "stmt" and isinstance(n.ast, ast.Return) and n.ast.value is not None and norm(n.ast.value) == var]
+    if not rets:
+        raise AnalysisError(f"replace_multiple: `return {var}` not found")
+    for fld, own in (("origin_repetitions", ("self.origin_repetitions", "self._origin_repetitions")), ("_parent", ("self.parent", "self._parent"))):
+        hand = [n.id for n in cfg.nodes if n.kind == "stmt" and isinstance(n.ast, ast.Assign) and any(isinstance(t, ast.Attribute) and norm(t.value) == var and t.attr.lstrip("_") == fld.lstrip("_")
+                                                                                                       for t in n.ast.targets)
+                and any(o in norm(n.ast.value) for o in own)]
+        p = cfg.find_path(cp.id, rets, avoid=hand)
+        if p is None and hand:
+            chk.ok(rule, rm.fq, cfg.nodes[hand[0]].line, f"the node that takes the place inherits `{fld}` of the replaced node on every path")
+        else:
+            chk.bad(rule, eng.relfile(rm), cp.line, rm.fq, f"the replacement returned by replace_multiple does not take over `{fld}` from the node it replaces",
+                    "the repetition tags (or the parent link) of the copy describe the place the subtree was taken from: a swapped repetition element is no longer counted by its "
+                    "repetition, the bounds constraint 'repairs' the tree by inserting elements and the over-long tree is emitted as a solution",
+                    path=cfg.describe_path(p) if p else [], keyparts=f"position-field|{fld}")
+
+
 def settings_keys(eng: Engine) -> dict[str, object]:
     mod = eng.module(f"{NODES}.node")
     for st in mod.tree.body:  # type: ignore[union-attr]
@@ -630,6 +663,12 @@ def surgery_bracket_rule(chk: Check, eng: Engine, rule: str) -> None:
 
 
 def run(chk: Check, eng: Engine) -> None:
+    chk.rule("R01-j", "a node installed by replace_multiple inherits the parent link and the repetition tags of the node it replaces", floor=2)
+    position_bookkeeping_rule(chk, eng, "R01-j")
+    chk.rule("R01-i", "the subtree Grammar.generate attaches for a generator-defined symbol is the parse result of the generator's value under that symbol "
+             "(a derivation by construction): a misfit raises, nothing is substituted for the parsed tree", floor=3)
+    from .c16 import generate_parse_rule
+    generate_parse_rule(chk, eng, "R01-i")
     chk.rule("R01-h", "in-place surgery on a live tree is bracketed exception-safely, or no caller swallows exceptions raised inside the bracket", floor=1)
     surgery_bracket_rule(chk, eng, "R01-h")
     chk.rule("R01-g", "no parse / fuzz issued by the search, the API or the repair relies on the default start symbol", floor=4)
@@ -663,6 +702,9 @@ _N = "src/fandango/language/grammar/nodes/node.py"
 _CMP = "src/fandango/constraints/comparison.py"
 _CX = "src/fandango/evolution/crossover.py"
 MUTANTS = [
+    M("tuple-generator-keeps-its-own-tree", "src/fandango/language/grammar/grammar.py", "            string = str(DerivationTree.from_tree(string))\n        tree = self.parse(string, symbol)\n",
+      "            given = DerivationTree.from_tree(string)\n            string = str(given)\n        else:\n            given = None\n        tree = self.parse(string, symbol)\n        if tree is not None and given is not None and given.symbol == symbol:\n            tree = given\n", "R01-i"),
+    M("replacement-keeps-its-own-repetition-tags", "src/fandango/language/tree.py", "            new_subtree.origin_repetitions = list(self.origin_repetitions)\n", "", "R01-j"),
     M("repair-errors-swallowed", "src/fandango/evolution/population.py", "            suggested_replacements = suggestion.get_replacements(\n                individual, self._grammar\n            )\n",
       "            try:\n                suggested_replacements = suggestion.get_replacements(\n                    individual, self._grammar\n                )\n            except Exception as e:\n                LOGGER.warning(f\"no repair: {e}\")\n                return individual, fixes_made\n", "R01-h"),
     M("guard-checks-the-replacements-flag", "src/fandango/language/tree.py", "        if (\n            current_path in path_to_replacement\n            and self.symbol == path_to_replacement[current_path].symbol\n            and not self.read_only\n        ):\n            new_subtree = path_to_replacement[current_path].deepcopy(\n", "        replacement = path_to_replacement.get(current_path)\n        if (\n            replacement is not None\n            and replacement.symbol == self.symbol\n            and not replacement.read_only\n        ):\n            new_subtree = replacement.deepcopy(\n", "R01-a"),
